@@ -15,6 +15,10 @@ vars == <<pres, codecs>>
 
 UniverseQuick == << <<0, 0, 0>>, <<2, 1, 1>>, <<2, 2, 1>>, <<6, 31, 5>>, <<6, 32, 5>>, <<6, 32, 40>> >>
 UniverseSmall == << <<2, 1, 1>>, <<2, 2, 1>>, <<6, 31, 5>>, <<6, 32, 5>> >>
+\* a 2x2 square inside one sub-box: the still-empty slots after the first source can form an L-shaped hole whose bounding
+\* box contains filled slots (3 sources: who fills what is decided per slot, not per count)
+UniverseSquare == << <<2, 0, 0>>, <<2, 1, 0>>, <<2, 0, 1>>, <<2, 1, 1>> >>
+ListsPlain3 == { <<"none", "none", "none">> }
 Lists2 == { <<a, b>> : a \in Codec, b \in Codec }
 Lists2Quick == { <<"none", "none">>, <<"gzip", "gzip">>, <<"none", "gzip">>, <<"gzip", "brotli">>, <<"brotli", "none">> }
 Lists3 == { <<"none", "gzip", "brotli">>, <<"gzip", "gzip", "gzip">>, <<"brotli", "none", "none">> }
